@@ -282,6 +282,24 @@ theorem C15_read_returns_after_close (cd : Codec) (s : RState) (n : Nat) (p : Pa
     readOut (Ibb.close s) n ≠ .blocks ∧ recv cd (Ibb.close s) p = (Ibb.close s, .itemNotFound) :=
   ⟨(C15_drain_then_eof s n).2.1, C15_closed_refuses cd s p⟩
 
+/-- over the control points of `ibb.open` regenerated from `ibb/ibb.go`: the sid is registered
+with the handler exactly when the open succeeded — after a refused or failed open (any failing
+step) it is unknown, so later data for it is answered item-not-found (`C15_refuse_unknown_or_closed`) -/
+theorem C15_open_registers_iff_accepted :
+    (Generated.C15.openProgram.bind parseOProgram).map registersIffAccepted = some true := by decide
+
+/-- negation witness: registering before the request goes out and forgetting to unregister on
+the error-reply path leaves the sid registered after a refused open -/
+theorem C15_open_register_first_fails :
+    registersIffAccepted [.other, .register, .fallible true, .other, .fallible true, .fallible true,
+      .fallible false] = false := by decide
+
+/-- the packet counters of both sides are 16 bit counters advanced by one: they wrap at 65536,
+the modulus of `recv` / `seqsFrom` (regenerated from the field types and the increment
+statements of `handlePayload` and `stanzaWriter.Write`) -/
+theorem C15_seq_modulus_fact :
+    Generated.C15.recvSeqModulus = some 65536 ∧ Generated.C15.sendSeqModulus = some 65536 := by decide
+
 /-- negation witness: taking the receiving side down only after the peer acknowledged the close
 request leaves it up whenever an earlier step fails -/
 theorem C15_close_after_ack_only_fails :
